@@ -4,6 +4,9 @@ from props import world_common as wc
 
 HARNESSES = wc.HARNESSES
 LEVEL_WITHOUT_PROOF = "other"
+# Props/Refinement.lean: step_refines / flush_refines / run_refines - every history of the world model (WM.step) behaves like
+# the abstract spec (WS.step), including the outermost unlock (the pack fold = the commands applied one by one)
+EXTRA_PROPS = ["Refinement"]
 
 CFG = dict(
     mix=dict(create=3, assign=3, assign0=1, remove=3, destroynow=2, destroy=1, build=2, lock=2, unlock=1, update=1, query=1, parjob=1),
